@@ -40,10 +40,27 @@ type PktSpec struct {
 	Quote            []byte
 	HBH, E2E         bool // add a hop-by-hop / end-to-end extension with a padding option
 	HBHOpts, E2EOpts []*slayers.HopByHopOption
+	// PathSetter, if set, is called with the SCION layer (addresses and
+	// PayloadLen filled in) to install the path (e.g. snet's EPIC path which
+	// computes its validation fields from the header); Path/PathType are then
+	// only used for a first sizing pass.
+	PathSetter func(*slayers.SCION) error
 }
 
 // Build serializes the packet with the slayers encoder.
 func (s *PktSpec) Build() ([]byte, error) {
+	if s.PathSetter == nil {
+		return s.build(nil)
+	}
+	first, err := s.build(nil)
+	if err != nil {
+		return nil, err
+	}
+	pl := binary.BigEndian.Uint16(first[6:8])
+	return s.build(&pl)
+}
+
+func (s *PktSpec) build(payloadLen *uint16) ([]byte, error) {
 	sc := &slayers.SCION{
 		Version: 0, TrafficClass: s.TC, FlowID: s.FlowID,
 		SrcIA: s.SrcIA, DstIA: s.DstIA, Path: s.Path, PathType: s.PathType,
@@ -129,6 +146,12 @@ func (s *PktSpec) Build() ([]byte, error) {
 		ls = append(ls, e2e)
 	}
 	ls = append(ls, l4Layers...)
+	if payloadLen != nil {
+		sc.PayloadLen = *payloadLen
+		if err := s.PathSetter(sc); err != nil {
+			return nil, err
+		}
+	}
 	buf := gopacket.NewSerializeBuffer()
 	if err := gopacket.SerializeLayers(buf, gopacket.SerializeOptions{FixLengths: true, ComputeChecksums: true}, ls...); err != nil {
 		return nil, err
